@@ -19,7 +19,7 @@ var alt = map[string]func(c Config) (func([]C) []C, int){
 	},
 	"Ema": func(c Config) (func([]C) []C, int) {
 		a := trend.NewEma[float64]()
-		a.Period = c.P[0]
+		a.Period, a.Smoothing = c.P[0], c.F[0]
 		return func(in []C) []C { return o1(a.Compute(in[0])) }, a.IdlePeriod()
 	},
 	"Kama": func(c Config) (func([]C) []C, int) {
